@@ -102,8 +102,12 @@ fn model_cookie(header: &Option<String>, name: &str) -> Option<Locale> {
 /// not in descending order make the user's order of preference ambiguous (the header is split by
 /// leptos-use without sorting): every listed match is admissible then.
 fn model_header(header: &Option<String>) -> Option<Vec<Locale>> {
+    model_header_for(header, &LOCALES)
+}
+
+fn model_header_for<L: leptos_i18n::Locale>(header: &Option<String>, all: &[L]) -> Option<Vec<L>> {
     let header = header.as_deref().unwrap_or("");
-    let mut matches: Vec<Locale> = vec![];
+    let mut matches: Vec<L> = vec![];
     let mut last_q = 1000i64;
     let mut descending = true;
     for entry in header.split(',') {
@@ -118,7 +122,7 @@ fn model_header(header: &Option<String>) -> Option<Vec<Locale>> {
         let Ok(id) = icu_locid::LanguageIdentifier::try_from_bytes(tag.as_bytes()) else {
             continue;
         };
-        for l in LOCALES {
+        for l in all.iter().copied() {
             let lid: &icu_locid::LanguageIdentifier = leptos_i18n::Locale::as_langid(l);
             if lid.language == id.language && !matches.contains(&l) {
                 matches.push(l);
@@ -244,9 +248,55 @@ fn observe(case: &Case) -> Locale {
     got
 }
 
+/// the same Accept-Language header resolved for the second locale enum of the process (no cookie)
+fn observe_second(header: &Option<String>) -> crate::fixture::second::i18n::Locale {
+    use crate::fixture::second::i18n::Locale as L2;
+    let owner = Owner::new();
+    let h = header.clone();
+    let got = owner.with(|| {
+        let opts = I18nContextOptions::<L2>::default()
+            .enable_cookie(false)
+            .cookie_options(CookieOptions::<L2>::default().ssr_cookies_header_getter(|| None).ssr_set_cookie(|_: &_| {}).on_error(std::sync::Arc::new(|_| {})))
+            .ssr_lang_header_getter(lang_options(h));
+        resolve_locale_with_options(opts)
+    });
+    crate::exec::clear();
+    drop(owner);
+    got
+}
+
+fn check_second(case: &Case) -> Result<(), Failure> {
+    use crate::fixture::second::i18n::Locale as L2;
+    let all = <L2 as leptos_i18n::Locale>::get_all();
+    let got = observe_second(&case.lang_header);
+    let admissible: Vec<L2> = model_header_for(&case.lang_header, all).unwrap_or_else(|| vec![<L2 as Default>::default()]);
+    if !admissible.contains(&got) {
+        return Err(Failure {
+            signature: "second-enum:accept-language-ignored".into(),
+            detail: json!({
+                "what": "the process has two locale enums; the same Accept-Language header was resolved for both",
+                "second_enum_locales": all.iter().map(|l| leptos_i18n::Locale::as_str(*l)).collect::<Vec<_>>(),
+                "lang_header": case.lang_header,
+                "expected_one_of": admissible.iter().map(|l| leptos_i18n::Locale::as_str(*l)).collect::<Vec<_>>(),
+                "actual": leptos_i18n::Locale::as_str(got),
+                "case_of_the_first_enum": case.to_json(),
+            }),
+        });
+    }
+    Ok(())
+}
+
 fn eval(case: &Case) -> CaseResult {
     let e = expect(case);
+    // the second enum resolves the same header before or after the first one (both orders occur)
+    let second_first = case.lang_header.is_some() && hash_str(&format!("{:?}", case.lang_header)) % 2 == 0;
+    if second_first {
+        check_second(case)?;
+    }
     let got = observe(case);
+    if case.lang_header.is_some() && !second_first {
+        check_second(case)?;
+    }
     let txt = serde_json::to_string(&case.to_json()).unwrap_or_default();
     if !e.admissible.contains(&got) {
         // name the source that was wrongly preferred, if any
